@@ -49,6 +49,7 @@ type HarnessSpec struct {
 	AtomicPkgs []string `json:"atomic_pkgs"`
 	Replay     string   `json:"replay"` // "direct" (default) | "none"
 	Note       string   `json:"note"`
+	ReplayRepeat int    `json:"replay_repeat"` // native stress iterations for schedule-dependent counterexamples
 }
 
 type PropSpec struct {
